@@ -115,6 +115,32 @@ def added_over_file(section, variant, pick=lambda k, v: True):
   return f
 
 
+def dup_section(section, variant):
+  """A second SECTION whose header differs from an existing one only in white space, defining one of its keys again."""
+  def f(items, info, rng):
+    s = bm.sec(items, section)
+    if s is None or not s[1]:
+      return None
+    kv = rng.choice(s[1])
+    hdr = variant(section, rng)
+    value = SECOND if section not in ("Tabulation", "Species", "Potential-Form") else {"Tabulation": kv[1], "Species": "777.0", "Potential-Form": "777.0 + 0*r"}[section]
+    items.insert(items.index(s) + 1 if rng.random() < 0.5 else len(items), [hdr, [[kv[0], value]]])
+    return items, "[%s] %s" % (section, kv[0]), "[%s] %s" % (hdr, kv[0])
+  return f
+
+
+HDR_WS = lambda name, rng: rng.choice([" " + name, name + " ", "\t" + name, name[:1] + " " + name[1:], " " + name + " "])
+
+
+def added_table_form(header_fn):
+  """A second definition of the file's table form 'tbl' supplied through additional= (API only: the command line cannot
+  address a section whose name holds a colon) under a header that differs at most in white space."""
+  def f(items, info, rng):
+    hdr = header_fn(rng)
+    return items, "Table-Form:tbl", hdr, [[hdr, "x", "0 1 2 3 4 10"], [hdr, "y", "777 777 777 777 777 777"]], "api_only"
+  return f
+
+
 NEWPAIR = lambda info, rng: "%s-%s" % (rng.choice(["He", "Ne"]), rng.choice(["Kr", "Xe"]))
 SAME = lambda k, rng: k
 NOT_SELF = lambda k, v: k.split("-")[0] != k.split("-")[-1]
@@ -153,6 +179,13 @@ OPS = [
   ("added_over_file_pair_reversed", "*", added_over_file("Pair", rev, pick=NOT_SELF)),
   ("added_over_file_custom_form_whitespace_variant", "*", added_over_file("Potential-Form", lambda k, rng: k.replace(", ", ",") if ", " in k else k.replace(",", " , "))),
   ("added_over_file_embed_same_key", "eam fs adp", added_over_file("EAM-Embed", SAME)),
+  ("pair_section_header_whitespace_variant", "*", dup_section("Pair", HDR_WS)),
+  ("embed_section_header_whitespace_variant", "eam fs adp", dup_section("EAM-Embed", HDR_WS)),
+  ("density_section_header_whitespace_variant", "eam fs adp", dup_section("EAM-Density", HDR_WS)),
+  ("potential_form_section_header_whitespace_variant", "*", dup_section("Potential-Form", HDR_WS)),
+  ("table_form_leading_space_in_header", "*", dup_table(lambda n, rng: rng.choice([" Table-Form:%s", "\tTable-Form:%s", " Table-Form : %s "]) % n)),
+  ("added_table_form_whitespace_variant_header", "*", added_table_form(lambda rng: rng.choice(["Table-Form : tbl", "Table-Form: tbl", "Table-Form :tbl", " Table-Form:tbl"]))),
+  ("added_table_form_named_like_custom_form", "*", added_table_form(lambda rng: "Table-Form:cf")),
 ]
 
 
@@ -243,7 +276,12 @@ def run_case(case, ctx):
     ctx.count("operator_not_applicable")
     return
   adds = ()
-  if len(res) == 4:
+  if len(res) == 5:
+    mutated, first, second, adds, _ = res
+    case = dict(case)
+    case["route"] = "inproc"
+    ctx.cls("second_definition_supplied_by_add_item")
+  elif len(res) == 4:
     mutated, first, second, adds = res
     # control: the first addition alone must be acceptable, or the operator proves nothing
     if len(adds) == 2:
